@@ -202,9 +202,13 @@ class BytesMixin(object):
       while have < want and rest:
         a = rest[0]
         if a[0] != 'u':
-          # a raw atom whose length is provably the remaining amount
-          if a[0] == 'raw' and simp_bool(a[2] == want - have) is True:
-            taken.append(a); rest.pop(0); have = want
+          # a raw atom whose length is provably the remaining amount: its bytes read as one
+          # big-endian integer (an uninterpreted function of the chunk)
+          if a[0] == 'raw' and (simp_bool(a[2] == want - have) is True or self.entails(st, a[2] == want - have)):
+            w = want - have
+            val = z3.Function('bytes_as_int', I, I)(a[1])
+            st.assume(z3.And(val >= 0, val < z3.IntVal(256 ** w)))
+            taken.append(('u', w, val)); rest.pop(0); have = want
             break
           return None, None, None
         w, v = a[1], a[2]
